@@ -327,3 +327,16 @@ def jsonable(o):
     if isinstance(o, bytes):
         return o.hex()
     return repr(o)
+
+
+def s2_trace_velocity():
+    """PRE_LEAN hook of C18: re-trace the six flow callables of velocity.py for the six axis assignments and rewrite
+    lean/Generated/TracedFlow.lean (bridge theorems: lean/Bridge/Flow.lean)."""
+    from .trace import tracer
+
+    traced = tracer.trace_velocity()
+    tracer.emit_velocity(traced)
+    bad = tracer.selfcheck_velocity(traced)
+    if bad:
+        return f"tracer self-check failed for {bad} (printed expression != what the Python function computes)"
+    return None
